@@ -183,6 +183,13 @@ def body_repoll(rep, case):
             rep.tick("repoll", key=(zname, now, mask, start_min, first), nontrivial=not first, sample=case if not first else None,
                      labels=("second-listing",) if not first else ("first-listing",))
             judge(sch.display, token, sch.start_time, mask, case, "C13/display" + ("/second-listing" if not first else ""))
+            if first and case.get("edit_days"):
+                # the caller works on the day set it was handed (to derive another schedule from it): its business only
+                try:
+                    from aioswitcher.schedule import Days
+                    sch.days.update(Days) if case["edit_days"] == "fill" else sch.days.clear()
+                except Exception:
+                    pass
         first = False
 
 
@@ -227,8 +234,9 @@ def strat_repoll():
     def mk(z, day, s1, gap_min, mask, start, bad):
         t1 = dt.datetime(day.year, day.month, day.day) + dt.timedelta(seconds=s1)
         t2 = t1 + dt.timedelta(minutes=gap_min)
-        return {"zone": z, "bad_between": bad, "now1": [t1.year, t1.month, t1.day, t1.hour, t1.minute, t1.second],
-                "now2": [t2.year, t2.month, t2.day, t2.hour, t2.minute, t2.second], "mask": mask * 2, "start": start}
+        return dict({"zone": z, "bad_between": bad, "now1": [t1.year, t1.month, t1.day, t1.hour, t1.minute, t1.second],
+                     "now2": [t2.year, t2.month, t2.day, t2.hour, t2.minute, t2.second], "mask": mask * 2, "start": start},
+                    **({"edit_days": ["fill", "clear"][s1 % 2]} if gap_min % 3 == 0 else {}))
     return st.builds(mk, st.sampled_from(["UTC", "Asia/Jerusalem", "America/New_York", "Asia/Kathmandu"]),
                      st.dates(dt.date(2024, 1, 8), dt.date(2024, 2, 20)), st.integers(0, 86399),
                      st.one_of(st.integers(1, 180), st.integers(1, 8 * 1440)), st.integers(1, 127), st.integers(0, 1439), st.booleans())
